@@ -76,7 +76,14 @@ Definition content_rows (sb st : list (N * N)) (fl : list N) (b : blob) : list r
   if negb (b_mine b) && b_fin b then repeat (row_of b) (content_mult sb st fl (b_hash b)) else [].
 Definition sd_rows (st : list (N * N)) (fl : list N) (b : blob) : list row :=
   if negb (b_mine b) then repeat (row_of b) (sd_mult st fl (b_hash b)) else [].
-Definition net_rows (sb : list (N * N)) (b : blob) : list row :=
+(* network branch (as repaired): ... where stream_blob.stream_hash is null and is_mine=0 and status='finished'
+   and blob_hash not in (select sd_hash from stream) -- the same exclusion the usage query makes: the descriptor of a
+   stream is not network storage, whether or not the stream has a file *)
+Definition net_rows (sb st : list (N * N)) (b : blob) : list row :=
+  if negb (b_mine b) && b_fin b && (count_sb sb (b_hash b) =? 0)%nat && negb (is_sd st (b_hash b))
+  then [row_of b] else [].
+(* the query before that repair: every finished downloaded blob without a stream_blob row, descriptors included *)
+Definition net_rows_old (sb : list (N * N)) (b : blob) : list row :=
   if negb (b_mine b) && b_fin b && (count_sb sb (b_hash b) =? 0)%nat then [row_of b] else [].
 
 (* ORDER BY: stable insertion sort over the rows in table order *)
@@ -98,7 +105,7 @@ Definition net_le (a b : row) : bool :=
   (r_len b <? r_len a) || ((r_len a =? r_len b) && (r_added a <=? r_added b)).
 
 Definition cands (net : bool) (d : db) : list row :=
-  if net then isort net_le (flat_map (net_rows (sblobs d)) (blobs d))
+  if net then isort net_le (flat_map (net_rows (sblobs d) (streams d)) (blobs d))
   else isort content_le (flat_map (content_rows (sblobs d) (streams d) (files d)) (blobs d))
        ++ isort sd_le (flat_map (sd_rows (streams d) (files d)) (blobs d)).
 
@@ -167,6 +174,36 @@ Fixpoint add_orphans (now : N) (sizes : list (N * N)) (hs : list N) (bl : list b
 Definition setup (now : N) (sizes : list (N * N)) (d : db) : db :=
   mkDb (add_orphans now sizes (disk d) (map (setup_row (disk d)) (blobs d))) (sblobs d) (streams d) (files d) (disk d).
 
+(* start-up stream recovery (StreamManager.initialize_from_database -> recover_streams -> storage.recover_streams) of
+   the stream whose descriptor blob [sd] is missing: its rows are dropped and re-inserted (as repaired: every blob
+   KEEPS is_mine), the descriptor file is rebuilt from the database, blobs found on disk become finished again, the
+   stream gets exactly one file row *)
+Definition recover_row (sd now : N) (members dk : list N) (b : blob) : blob :=
+  if b_hash b =? sd then mkBlob (b_hash b) (b_len b) now (b_mine b) true
+  else if mem (b_hash b) members then mkBlob (b_hash b) (b_len b) (b_added b) (b_mine b) (mem (b_hash b) dk)
+  else b.
+Definition recover (sd now : N) (d : db) : db :=
+  let shs := map fst (filter (fun x => snd x =? sd) (streams d)) in
+  let members := map snd (filter (fun x => mem (fst x) shs) (sblobs d)) in
+  mkDb (map (recover_row sd now members (disk d)) (blobs d)) (sblobs d) (streams d)
+       (filter (fun f => negb (mem f shs)) (files d) ++ shs)
+       (if mem sd (disk d) then disk d else disk d ++ [sd]).
+
+(* ---- configuration layers (lbry/conf.py): a setting is looked up in runtime, command line, environment, config
+   file, in that order, then its default (0 for both storage limits); assigning a value writes the runtime layer
+   (and the config file inside update_config()) -- ALSO when the value equals the default ---- *)
+Record layers := mkLayers { l_runtime : option Z; l_args : option Z; l_env : option Z; l_file : option Z }.
+Definition effective (l : layers) : Z :=
+  match l_runtime l, l_args l, l_env l, l_file l with
+  | Some v, _, _, _ => v
+  | None, Some v, _, _ => v
+  | None, None, Some v, _ => v
+  | None, None, None, Some v => v
+  | None, None, None, None => 0%Z
+  end.
+Definition assign (updating : bool) (v : Z) (l : layers) : layers :=
+  mkLayers (Some v) (l_args l) (l_env l) (if updating then Some v else l_file l).
+
 Definition hide_files (hs : list N) (d : db) : db :=
   mkDb (blobs d) (sblobs d) (streams d) (files d) (filter (fun h => negb (mem h hs)) (disk d)).
 Fixpoint restore_list (hs dk : list N) : list N :=
@@ -181,6 +218,9 @@ Inductive op :=
 | OpDelete (hs : list N)      (* the user removes blobs through the API: blob_manager.delete_blobs(hs, delete_from_db=True) *)
 | OpHide (hs : list N)        (* blob files become invisible (blob directory unavailable, files moved away) *)
 | OpRestore (hs : list N)     (* blob files are (back) in the blob directory *)
+| OpRecover (sds : list N) (now : N)   (* a restart in which the stream manager recovers the streams whose descriptor
+                                         files [sds] are missing and whose blob rows are complete (the rebuilt
+                                         descriptor must hash to sd_hash: StreamManager.initialize_from_database) *)
 | OpSetup (now : N) (sizes : list (N * N))   (* a restart: BlobManager.setup(); [sizes] = size of each blob file *)
 | OpStatus.                   (* a status read (get_space_used_mb / get_free_space_mb): no effect on the database;
                                  the pass recomputes usage itself every time, the model has no cache *)
@@ -201,6 +241,7 @@ Fixpoint run (ops : list op) (d : db) : list (list N) * db :=
       let (tr, d2) := run r (remove_hashes hs d) in (tr, d2)
   | OpHide hs :: r => run r (hide_files hs d)
   | OpRestore hs :: r => run r (restore_files hs d)
+  | OpRecover sds now :: r => run r (fold_left (fun acc sd => recover sd now acc) sds d)
   | OpSetup now sizes :: r => run r (setup now sizes d)
   | OpStatus :: r => run r d
   end.
@@ -235,7 +276,7 @@ Definition wf (d : db) : Prop :=
 
 (* membership in the class a pass works on *)
 Definition in_class (net : bool) (d : db) (h : N) : Prop :=
-  if net then count_sb (sblobs d) h = O
+  if net then count_sb (sblobs d) h = O /\ is_sd (streams d) h = false
   else (exists sh, In (sh, h) (sblobs d) /\ In sh (map fst (streams d)) /\ In sh (files d))
        \/ (exists sh, In (sh, h) (streams d) /\ In sh (files d)).
 
@@ -277,7 +318,16 @@ Fixpoint sorted_by (le : row -> row -> bool) (l : list row) : Prop :=
   | x :: t => (forall y, In y t -> le x y = true) /\ sorted_by le t
   end.
 
+(* the network candidates before the repair of the query *)
+Definition cands_net_old (d : db) : list row := isort net_le (flat_map (net_rows_old (sblobs d)) (blobs d)).
+
 (* ---- example states (used by the Examples of Props/C19.v) ---- *)
+
+(* a downloaded stream (blob 1, descriptor 2) and two seeded blobs below / above 1 MiB; content storage unlimited *)
+Definition netsd_db : db :=
+  mkDb [mkBlob 1 (2 * MiB) 1 false true; mkBlob 2 300 2 false true; mkBlob 3 (MiB + MiB / 2) 3 false true;
+        mkBlob 4 943718 4 false true] [(10, 1)] [(10, 2)] [10] [1; 2; 3; 4].
+
 
 (* the reproducer of the repaired defect: 3 MB used, limit 100 MB *)
 Definition witness_db : db :=
